@@ -12,6 +12,7 @@ import tempfile
 from . import srv as S
 
 _ENV = None
+UNREADABLE = 5   # index (case key "cert") of the client certificate that OpenSSL accepts and `cryptography` cannot parse
 
 
 def env():
@@ -60,6 +61,28 @@ def env():
         open(cp, "wb").write(cert.public_bytes(serialization.Encoding.PEM) + open(clients[0][0], "rb").read())
         open(kp, "wb").write(key.private_bytes(serialization.Encoding.PEM, serialization.PrivateFormat.PKCS8, serialization.NoEncryption()))
         clients.append((cp, kp, "sha256:" + hashlib.sha256(cert.public_bytes(serialization.Encoding.DER)).hexdigest()))
+        # the 6th client (index UNREADABLE) presents a certificate OpenSSL takes and serves but `cryptography` cannot parse: the
+        # critical flag of its BasicConstraints is the non-canonical DER boolean 01 01 01 (TRUE must be FF)
+        import base64
+
+        key = ec.generate_private_key(ec.SECP256R1())
+        name = x509.Name([x509.NameAttribute(NameOID.COMMON_NAME, "pumpclient-unreadable")])
+        cert = (x509.CertificateBuilder().subject_name(name).issuer_name(name).public_key(key.public_key()).serial_number(2100)
+                .not_valid_before(now).not_valid_after(now + datetime.timedelta(days=3650))
+                .add_extension(x509.BasicConstraints(ca=False, path_length=None), critical=True).sign(key, hashes.SHA256()))
+        der = cert.public_bytes(serialization.Encoding.DER)
+        assert der.count(b"\x01\x01\xff") == 1
+        der = der.replace(b"\x01\x01\xff", b"\x01\x01\x01")
+        try:
+            x509.load_der_x509_certificate(der)
+            raise AssertionError("the unreadable client certificate is readable")
+        except ValueError:
+            pass
+        cp, kp = f"{d}/cl5.pem", f"{d}/cl5.key"
+        open(cp, "wb").write(b"-----BEGIN CERTIFICATE-----\n" + base64.encodebytes(der) + b"-----END CERTIFICATE-----\n")
+        open(kp, "wb").write(key.private_bytes(serialization.Encoding.PEM, serialization.PrivateFormat.PKCS8, serialization.NoEncryption()))
+        clients.append((cp, kp, "sha256:" + hashlib.sha256(der).hexdigest()))
+        assert len(clients) == UNREADABLE + 1
         _ENV = (ctx, clients)
     return _ENV
 
@@ -69,15 +92,19 @@ class TCP:
         self.out: list[bytes] = []
         self.closed = False
         self.after: list[bytes] = []
+        self.pevs: list | None = None     # the pump events recorded so far (set by run_pump)
+        self.closed_at: int | None = None  # how many pump events had been recorded when the connection was closed
 
     def write(self, b):
         (self.after if self.closed else self.out).append(bytes(b))
 
     def close(self):
+        if not self.closed and self.pevs is not None:
+            self.closed_at = len(self.pevs)
         self.closed = True
 
     def abort(self):
-        self.closed = True
+        self.close()
 
     def is_closing(self):
         return self.closed
@@ -154,7 +181,8 @@ async def run_pump(loop: S.VLoop, c, mw_factory=None):
     """case keys: up, mw, handler (spec as in sim.srv), app (list of hex plaintext writes, one TLS record each),
     close_notify, plaintext (hex|None), cutseed, maxcuts, stall (None | [flight, keep_bytes_fraction]),
     edgecuts (None | {"f1": spec, "s": spec}: explicit read boundaries of the first flight / of everything after it, see cut_at),
-    cert (None|0|1|2), post (inner events after the reads: ["ua", resp] | ["ha", resp] | ["ma"] | ["md", line] | ["t"] | ["hst"])"""
+    cert (None | index into env()'s clients; UNREADABLE = accepted by OpenSSL, not parseable by `cryptography`),
+    fatal (bool: treat an exception escaping data_received as asyncio's transports do - force-close + connection_lost), post (inner events after the reads: ["ua", resp] | ["ha", resp] | ["ma"] | ["md", line] | ["t"] | ["hst"])"""
     from nauyaca.server import protocol as sp
     from nauyaca.server.protocol import GeminiServerProtocol
     from nauyaca.server.tls_protocol import TLSServerProtocol
@@ -233,6 +261,7 @@ async def run_pump(loop: S.VLoop, c, mw_factory=None):
     inb, outb = ssl.MemoryBIO(), ssl.MemoryBIO()
     so = cctx.wrap_bio(inb, outb, server_hostname="localhost")
     pevs: list[str] = []
+    tcp.pevs = pevs
     readlens: list[int] = []
     edge = c.get("edgecuts") or {}
 
@@ -245,6 +274,11 @@ async def run_pump(loop: S.VLoop, c, mw_factory=None):
                 server.data_received(r)
             except Exception as e:  # noqa: BLE001
                 log["exc"].append(f"{type(e).__name__}: {e}"[:120])
+                if c.get("fatal"):
+                    # asyncio's transport contract: an exception that escapes protocol.data_received() is fatal - the transport is
+                    # force-closed (is_closing() from now on) and connection_lost(exc) is called on the next loop iteration
+                    tcp.abort()
+                    loop.call_soon(server.connection_lost, e)
             pevs.append("r:" + ",".join(its))
 
     def to_client():
@@ -271,7 +305,8 @@ async def run_pump(loop: S.VLoop, c, mw_factory=None):
         inner = server.inner_protocol
         obs = {"plain": got.hex() or "-", "eof": eof, "tcpclosed": tcp.closed, "h": log["h"], "u": log["u"], "m": log["m"],
                "content": log["content"].hex() or "-", "mwargs": log["mwargs"], "order": log["order"], "exc": log["exc"], "pevs": pevs,
-               "after_close_writes": len(tcp.after), "inner": inner is not None, "readlens": readlens}
+               "after_close_writes": len(tcp.after), "inner": inner is not None, "readlens": readlens,
+               "closed_at": tcp.closed_at}
         restore_wall()
         loop.set_exception_handler(lambda lp, cx: None)
         if inner is not None and getattr(inner, "timeout_handle", None):
